@@ -152,7 +152,12 @@ func (a *muxAnalysis) addObject(obj *mediaObj, into map[int][]decUnit, s *stream
 					a.fail("stranger", "mpegts-video", "segment %s contains an access unit that was never written (%d NALUs)", obj.uri, len(smp.data))
 					return
 				}
-				if !a.learnDTS(u, smp.dts, obj) {
+				// MPEG-TS time stamps are 33 bits wide: place the decode time at or below the written presentation time
+				back := mod33(u.pts - smp.dts)
+				if back > 1<<32 {
+					back -= 1 << 33 // later than the presentation time: learnDTS reports it
+				}
+				if !a.learnDTS(u, u.pts-back, obj) {
 					return
 				}
 				into[u.track] = append(into[u.track], decUnit{u: u, msn: obj.msn, obj: obj, dts: smp.dts, pts: smp.pts, sync: u.ra})
